@@ -359,6 +359,22 @@ def run(tier: str, seed: int) -> dict:
                 check_grammar(f"{name}@{alt.__name__}", classes, alt, False, F, stats)
             except Exception as ex:  # noqa
                 stats["skipped"].append(f"{name}@{alt.__name__}: driver error {H.exc_text(ex)}")
+    # the local equations the synthesis proofs assume (g_ok), also on the grammars of the heap drivers: unproductive
+    # symbols (table entry 1000000), infeasible refinements, concrete recursion
+    try:
+        from rt import heap_helpers as HH
+        from geneticengine.grammar.grammar import extract_grammar as _eg
+
+        for name, classes, start, _r, _d in [HH.unproductive_grammar()] + HH.extra_grammars():
+            stats["evaluations"] += 1
+            try:
+                g_ = _eg(list(classes), start)
+            except Exception:  # noqa
+                continue
+            for clause, msg in g_ok_clauses(g_):
+                F.add(f"g_ok:{clause}", f"{name}: {msg}", len(classes))
+    except ImportError:
+        pass
     stats["family"] = False
     shipped, nfiles = harvest(400 if tier == "thorough" else 120)
     for name, classes, start in shipped:
